@@ -2818,6 +2818,11 @@ def get_paths(node: Dict[str, Any], path: List[str], all_paths: List[Any]) -> No
         elif "project_name" in node and node.get("primary"):
             path.append(node["project_name"])
             all_paths.append(path)
+        else:
+            # A URL leaf has no slug of its own, but its ancestors are pages of the
+            # toctree: keep their chain, or a page whose toctree lists only URLs
+            # would end up without a parentPaths entry.
+            all_paths.append(path)
     else:
         # Recursively build the path
         for child in node["children"]:
